@@ -226,9 +226,18 @@ func (l *Lexer) Split() []*Token {
 			tokLen = 0
 			var token *Token = nil
 
+			switch char {
+			case '*', '+', '-', '/':
+				// There is no *=, += ... operator, it is always a token by itself
+				token = &Token{
+					Tp:   OPERATOR,
+					Data: string(char),
+					Pos:  i,
+				}
+			}
 			if next != '=' {
 				switch char {
-				case '!', '*', '+', '-', '/':
+				case '!':
 					token = &Token{
 						Tp:   OPERATOR,
 						Data: string(char),
